@@ -234,6 +234,12 @@ def _relax(prog, rep, f, m, pm, loop, kind, v, feats):
     r = ifs[0]
     wl = [lp for lp in pm.loops(r) if isinstance(lp, ast.For)]
     w = norm(wl[0].target) if wl else 'w'
+    if kind == 'wei' and m.match(r.test, '$X == D[%s]' % w) is not None and len(r.orelse) == 1 and isinstance(r.orelse[0], ast.If) \
+            and not r.orelse[0].orelse and m.match(r.orelse[0].test, '$X < D[%s]' % w) is not None:
+        # `if tie: .. elif shorter: ..` -- the two tests exclude each other, so the order of the arms is immaterial: read it as `if shorter: .. elif tie: ..`
+        inner = r.orelse[0]
+        tie_arm = ast.copy_location(ast.If(test=r.test, body=r.body, orelse=[]), r)
+        r = ast.copy_location(ast.If(test=inner.test, body=inner.body, orelse=[tie_arm]), inner)
     body = [norm(s) for s in r.body]
     orelse = r.orelse
     if kind == 'wei':
